@@ -50,3 +50,5 @@ def run(ctx):
                          ('Bits.bitlist', S.BITS_BITLIST), ('Bits.__iter__', S.BITS_ITER), ('Bits.__eq__', S.BITS_EQ), ('Bits.__ne__', S.BITS_NE)])
     cmp_prop(ctx, BITS, 'Bits', 'size', 'get', S.BITS_SIZE_GET)
     cmp_prop(ctx, BITS, 'Bits', 'size', 'set', S.BITS_SIZE_SET)
+
+    dependencies(ctx, ['crysp/bits.py'], 'C07')
